@@ -91,6 +91,31 @@ int main(int argc, char** argv)
       std::fflush(stdout);
       if (leaks >= 2) break;
    }
+   // one Lexicon whose unification tables are filled in monotone key order (identifiers by ascending spelling, pointer types over
+   // operands of ascending address): the trees become as deep as red-black trees get (2*log2 n), which is what any fixed-size
+   // scratch storage of the clean-up code must survive
+   long big = argc > 3 ? std::atol(argv[3]) : 0;
+   if (big > 0) {
+      {
+         auto lex = std::make_unique<ipr::impl::Lexicon>();
+         char buf[32];
+         const ipr::Identifier* first = nullptr;
+         for (long i = 0; i < big; ++i) {
+            int len = std::snprintf(buf, sizeof buf, "k%09ld", i);
+            auto& id = lex->get_identifier(ipr::util::word_view(reinterpret_cast<const char8_t*>(buf), std::size_t(len)));
+            if (i == 0) first = &id;
+         }
+         const ipr::Type* t = &lex->int_type();
+         for (long i = 0; i < big; ++i) t = &lex->get_pointer(*t);
+         bool again = &lex->get_identifier(u8"k000000000") == first;
+         std::printf("big-tables entries=%ld first-identifier-unified=%d\n", big, int(again));
+         std::fflush(stdout);
+      }
+      int r = __lsan_do_recoverable_leak_check();
+      if (r) ++leaks;
+      std::printf("iteration=big leak_check=%d\n", r);
+      std::fflush(stdout);
+   }
    std::printf("lexicons=%d leaking_iterations=%d\n", n, leaks);
    return 0;
 }
